@@ -124,11 +124,17 @@ func c11Victims() []c11Victim {
 		{Name: "PutObject with versioning Suspended over a version, beside a preserved null version", Key: "k", NeedsVersioning: true, Prep: func(st *pxStore) map[string]string {
 			// history: a null version written while Suspended, preserved by a write while Enabled; Suspended again
 			for _, step := range []func() error{
-				func() error { return st.A.PutBucketVersioning(st.ctx(), c11Bucket, types.BucketVersioningStatusSuspended) },
+				func() error {
+					return st.A.PutBucketVersioning(st.ctx(), c11Bucket, types.BucketVersioningStatusSuspended)
+				},
 				func() error { return put(st, st.A, "k", v0, nil) },
-				func() error { return st.A.PutBucketVersioning(st.ctx(), c11Bucket, types.BucketVersioningStatusEnabled) },
+				func() error {
+					return st.A.PutBucketVersioning(st.ctx(), c11Bucket, types.BucketVersioningStatusEnabled)
+				},
 				func() error { return put(st, st.A, "k", v1, nil) },
-				func() error { return st.A.PutBucketVersioning(st.ctx(), c11Bucket, types.BucketVersioningStatusSuspended) },
+				func() error {
+					return st.A.PutBucketVersioning(st.ctx(), c11Bucket, types.BucketVersioningStatusSuspended)
+				},
 			} {
 				if err := step(); err != nil {
 					ck.Fatal("suspended history: %v", err)
